@@ -85,7 +85,7 @@ Print Assumptions C01_supply_is_max_token_supply_partial.
 (* Non-vacuity: a genesis distribution, then a contract call that moves tokens between four
    accounts and pays a fee, a chargeable failure and a rejected overdraft; all ids canonical. *)
 Example C01_example :
-  let cfg := {| cfg_fee := true; cfg_events := false; cfg_miner := 0 |} in
+  let cfg := {| cfg_fee := true; cfg_events := false; cfg_miner := 0; cfg_strict_ids := false |} in
   let gs := [(1, 3999999999999999000, [(3, 500); (4, 70)]); (0, 1000, [])] in
   let tx n ty v f := {| tx_hash := n; tx_type := ty; tx_from := 3; tx_to := 1; tx_value := v;
                         tx_fee := f; tx_nonce := n |} in
